@@ -513,7 +513,10 @@ class Vector(AutoSerialize):
             if idx not in self._fields:
                 raise KeyError(f"Field '{idx}' not found.")
             field_view = _FieldView(self, idx)
-            field_view.set_flattened(value)
+            if callable(value):
+                field_view._apply_op(value)
+            else:
+                field_view.set_flattened(value)
             return
 
         # Normalize idx to tuple
